@@ -47,10 +47,21 @@ type c19sum struct {
 	Viol     int64 `json:"violations"`
 	PRuns    int64 `json:"periodic_runs"`
 	PViol    int64 `json:"periodic_violations"`
+	// drained-bucket part (refill ladder + boundary tree)
+	DNodes      int64 `json:"drained_nodes"`
+	DAdmitted   int64 `json:"drained_admitted"`
+	DDropped    int64 `json:"drained_dropped"`
+	DrainSteps  int64 `json:"drain_steps"`
+	Probes      int64 `json:"probes"`
+	ProbeSteps  int64 `json:"probe_steps"`
+	ProbeCapped int64 `json:"probes_capped"`
+	LadderGaps  int   `json:"ladder_gaps"`
+	BoundGaps   int   `json:"boundary_gaps"`
 }
 
 type c19vio struct {
 	Violation string  `json:"violation"`
+	Phase     string  `json:"phase"` // "" = sequence tree / periodic run, "drained" = drained-bucket part
 	Detail    string  `json:"detail"`
 	Rate      uint64  `json:"rate_bps"`
 	Burst     uint32  `json:"burst"`
@@ -112,7 +123,7 @@ func runC19(bin string, args ...string) ([]c19vio, c19sum, error) {
 
 func TestCheck(t *testing.T) {
 	run := report.New("C19", "model_checking")
-	run.Rule = "full tree of arrival sequences over sizes {34,64,1500,65535} x gaps {0,1ns,50ns,1us,1ms,8ms,1s,1day,product-overflow gap} to the stated depth, for rates {1k,1M,100M,1G,100G,0 bit/s} x bursts {1,1500,65536,2^32-1} x clock origins {0,2^63,2^64-2days} x {egress,ingress}; every window of every sequence checked against exact arithmetic; saturating periodic runs (5 gaps x 4 sizes) for the starvation bound; initial bucket bytes written by the real qos.Manager into a kernel map"
+	run.Rule = "(1) full tree of arrival sequences over sizes {34,64,1500,65535} x gaps {0,1ns,50ns,1us,1ms,8ms,1s,1day,product-overflow gap} to the stated depth, for rates {1k,1M,100M,1G,100G,0 bit/s} x bursts {1,1500,65536,2^32-1} x clock origins {0,2^63,2^64-2days} x {egress,ingress}; every window of every sequence checked against exact arithmetic; saturating periodic runs (5 gaps x 4 sizes) for the starvation bound; initial bucket bytes written by the real qos.Manager into a kernel map; (2) drained bucket: after a greedy back-to-back burst that empties the bucket (one super-arrival), a refill ladder (every gap 2^k-1, 2^k, 2^k+1 for k=1..63, {1,2,5}x10^k ns, both sides of the gaps where elapsed*(rate/8) crosses 2^16..2^64, burst/rate x {1/4,1/2,1-,1,1+,2}) and the full tree over sizes x the configuration's boundary gaps {0,1ns,1s,2^31,2^32-1,2^32,2^32+1,2^33, product crossing 2^32/2^63/2^64 both sides, burst/rate x {1/2,1-,1,2}}, each node followed by a bounded greedy probe burst; same exact window oracle; rates additionally {8k,64k bit/s}, bursts additionally the control plane's default"
 	run.Assumptions = []string{"qos_ratelimit.c compiled natively (x86-64) with shim helpers; kernel clock supplied by the harness", "single CPU: concurrent updates of one bucket from several CPUs are not modelled"}
 	dir, err := nativebpf.Build()
 	defer os.RemoveAll(dir)
@@ -135,9 +146,9 @@ func TestCheck(t *testing.T) {
 		os.Exit(replay(bin, run, k))
 	}
 
-	depth, periodic := 3, "100000"
+	depth, periodic, bdepth := 3, "100000", 2
 	if run.Thorough() {
-		depth, periodic = 4, "1000000"
+		depth, periodic, bdepth = 4, "1000000", 3
 	}
 	pm := radius.NewPolicyManager()
 	mgr, err := qos.NewManager(qos.ManagerConfig{Interface: "lo"}, pm, zap.NewNop())
@@ -149,14 +160,22 @@ func TestCheck(t *testing.T) {
 	ip := net.IPv4(10, 7, 7, 10).To4() // byte-palindromic: unaffected by the byte-order finding recorded under C06
 	key := []byte(ip)
 
-	rates := []uint64{1000, 1000000, 100000000, 1000000000, 100000000000, 0}
-	bursts := []uint32{1, 1500, 65536, 4294967295}
+	// slow plans (1, 8, 64 kbit/s) are the ones whose burst is worth many seconds of traffic: an idle gap can be
+	// long in nanoseconds (past 2^31, 2^32, 2^33 ...) and still be worth less than the burst.
+	rates := []uint64{1000, 8000, 64000, 1000000, 100000000, 1000000000, 100000000000, 0}
+	// 0 = not set: the control plane derives the burst (64 KiB minimum, 1 s of traffic, 10 MiB maximum)
+	bursts := []uint32{0, 1, 1500, 65536, 4294967295}
 	origins := []uint64{0, 1 << 63, ^uint64(0) - 2*86400*1000000000}
 	type job struct {
 		c   cfg
 		hex string
 	}
 	var jobs []job
+	// The native enumeration is a function of (bucket bytes, clock origin, direction) only. Several requests yield the
+	// same bucket bytes (the ingress burst is always derived; an unset burst of a slow plan equals the explicit 64 KiB):
+	// every request is still pushed through the control plane and decoded above, the enumeration runs once per value.
+	seen := map[string]bool{}
+	requested := 0
 	for _, r := range rates {
 		for _, b := range bursts {
 			// control plane writes the policy (alternating between the direct API and a named RADIUS policy)
@@ -191,6 +210,12 @@ func TestCheck(t *testing.T) {
 					run.Violation(report.Violation{Part: "policy", Kind: "policy-mismatch", Site: mn, Detail: fmt.Sprintf("requested rate=%d burst=%d prio=3; map %s holds rate=%d burst=%d tokens=%d prio=%d", r, b, mn, gotRate, gotBurst, gotTokens, raw[28])})
 				}
 				for _, o := range origins {
+					requested++
+					id := fmt.Sprintf("%x/%d/%d", raw, o, dir)
+					if seen[id] {
+						continue
+					}
+					seen[id] = true
 					jobs = append(jobs, job{cfg{r, gotBurst, o, dir}, hex.EncodeToString(raw)})
 				}
 			}
@@ -202,13 +227,16 @@ func TestCheck(t *testing.T) {
 	var wg sync.WaitGroup
 	sem := make(chan struct{}, 16)
 	var nodes, admitted, dropped, pruns int64
+	var dadm, ddrop int64
+	var dnodes, drainSteps, probes, probeSteps, probeCapped int64
+	var ladderMax, boundMax int
 	for _, j := range jobs {
 		wg.Add(1)
 		sem <- struct{}{}
 		go func(j job) {
 			defer wg.Done()
 			defer func() { <-sem }()
-			vs, sum, err := runC19(bin, fmt.Sprint(depth), periodic, fmt.Sprint(j.c.origin), j.hex, fmt.Sprint(j.c.dir))
+			vs, sum, err := runC19(bin, fmt.Sprint(depth), periodic, fmt.Sprint(j.c.origin), j.hex, fmt.Sprint(j.c.dir), fmt.Sprint(bdepth))
 			mu.Lock()
 			defer mu.Unlock()
 			if err != nil {
@@ -219,20 +247,43 @@ func TestCheck(t *testing.T) {
 			admitted += sum.Admitted
 			dropped += sum.Dropped
 			pruns += sum.PRuns
+			dnodes += sum.DNodes
+			dadm += sum.DAdmitted
+			ddrop += sum.DDropped
+			drainSteps += sum.DrainSteps
+			probes += sum.Probes
+			probeSteps += sum.ProbeSteps
+			probeCapped += sum.ProbeCapped
+			ladderMax = max(ladderMax, sum.LadderGaps)
+			boundMax = max(boundMax, sum.BoundGaps)
 			for _, x := range vs {
-				v := report.Violation{Part: fmt.Sprintf("bucket[dir=%d]", j.c.dir), Kind: x.Violation, Site: "token_bucket_check",
+				part := fmt.Sprintf("bucket[dir=%d]", j.c.dir)
+				if x.Phase != "" {
+					part = fmt.Sprintf("bucket-%s[dir=%d]", x.Phase, j.c.dir)
+				}
+				v := report.Violation{Part: part, Kind: x.Violation, Site: "token_bucket_check",
 					Config: fmt.Sprintf("rate=%d burst=%d origin=%d dir=%d", j.c.rate, j.c.burst, j.c.origin, j.c.dir),
 					Detail: fmt.Sprintf("%s: rate=%d bit/s burst=%d origin=%d gap=%dns size=%d packets=%d admitted=%dB exact-bucket=%dB", x.Detail, x.Rate, x.Burst, j.c.origin, x.Gap, x.Size, x.Packets, x.Admitted, x.Ideal),
 					Trace:  []string{fmt.Sprint(x.Seq)},
-					Extra:  map[string]any{"depth": depth, "periodic": periodic, "origin": fmt.Sprint(j.c.origin), "hex": j.hex, "dir": j.c.dir}}
+					Extra:  map[string]any{"depth": depth, "periodic": periodic, "origin": fmt.Sprint(j.c.origin), "hex": j.hex, "dir": j.c.dir, "bdepth": bdepth}}
 				classify(&v, x)
 				run.Violation(v)
 			}
 		}(j)
 	}
 	wg.Wait()
-	run.AddPart(report.Part{Name: "token-bucket sequence tree", Engine: "C:native-dfs", Bound: fmt.Sprintf("depth=%d, %d configurations (rate x burst x origin x direction), alphabet 4 sizes x 9 gaps", depth, len(jobs)),
+	run.AddPart(report.Part{Name: "token-bucket sequence tree", Engine: "C:native-dfs", Bound: fmt.Sprintf("depth=%d, %d requested configurations (rate x burst x origin x direction) = %d distinct (bucket value, origin, direction), alphabet 4 sizes x 9 gaps", depth, requested, len(jobs)),
 		States: nodes, Transitions: nodes, Outcomes: 2, Exhaustive: true, Note: fmt.Sprintf("admitted=%d dropped=%d", admitted, dropped)})
+	limited := 0
+	for _, j := range jobs {
+		if j.c.rate != 0 {
+			limited++
+		}
+	}
+	run.AddPart(report.Part{Name: "drained-bucket refill ladder + boundary tree", Engine: "C:native-dfs",
+		Bound:  fmt.Sprintf("start: bucket emptied by a greedy back-to-back burst; ladder depth 1 over <=%d gaps x 4 sizes; boundary tree depth=%d over <=%d gaps x 4 sizes; bounded greedy probe burst (<=32 x 65535 B, then 1500/64/34 B until dropped) after every node; %d distinct configurations with a rate limit", ladderMax, bdepth, boundMax, limited),
+		States: dnodes, Transitions: dnodes + probeSteps + drainSteps, Outcomes: 2, Exhaustive: true,
+		Note: fmt.Sprintf("admitted=%d dropped=%d probes=%d (of which %d reached the probe cap) probe-packets=%d drain-packets=%d", dadm, ddrop, probes, probeCapped, probeSteps, drainSteps)})
 	run.AddPart(report.Part{Name: "saturating periodic arrivals", Engine: "C:native", Bound: fmt.Sprintf("%s packets per run", periodic), Executions: pruns, Exhaustive: true})
 	run.Sample(map[string]any{"config": jobs[0].c, "bucket_value_written_by_manager": jobs[0].hex})
 	os.Exit(run.Finish())
@@ -262,7 +313,11 @@ func replay(bin string, run *report.Run, k *nativebpf.Kernel) int {
 		return 0
 	}
 	g := func(k string) string { return fmt.Sprint(v.Extra[k]) }
-	vs, _, err := runC19(bin, g("depth"), g("periodic"), g("origin"), g("hex"), g("dir"))
+	args := []string{g("depth"), g("periodic"), g("origin"), g("hex"), g("dir")}
+	if _, ok := v.Extra["bdepth"]; ok { // replay files written before the drained-bucket part existed have none
+		args = append(args, g("bdepth"))
+	}
+	vs, _, err := runC19(bin, args...)
 	if err != nil {
 		fmt.Println("HARNESS-ERROR", err)
 		return 2
